@@ -510,3 +510,24 @@ V('ex2-return-expanded', ['C03'], 'yalafi/handlers.py', "    arg = args[2]\n    
 V('sc5-comment-loop', ['C18', 'C19', 'C03', 'C08'], S,
   "        if latex.count('\\n', self.pos + 1, next_non_space) == 0:\n            # next line not empty: progress further\n            self.pos = next_non_space\n",
   "        if latex.count('\\n', self.pos + 1, next_non_space) == 0:\n            # next line not empty: progress further\n            self.pos = next_non_space\n            while self.pos < self.max_pos and latex[self.pos] == '%':\n                self.pos = next((i for i in range(self.pos + 1, self.max_pos)\n                                if latex[i] == '\\n'), self.max_pos)\n", 'SC5')
+
+# ---- C09 structural rules (sa/rules/c09.py)
+V('sb1-index', ['C09'], P, "                arg = arguments[tok.arg - 1]\n                if arg:", "                arg = arguments[tok.arg - 2]\n                if arg:", 'SB1')
+V('sb1-slice', ['C09'], P, "                    out += arg\n", "                    out += arg[:1]\n", 'SB1')
+V('sb1-neutral-extend', ['C09'], P, "                    out += arg\n", "                    out.extend(arg)\n", [])
+V('sb1-reversed', ['C09'], P, "        # macro expansion\n        #\n        for tok in repls:", "        # macro expansion\n        #\n        for tok in repls[:9]:", 'SB1')
+V('sb2-conditional', ['C09'], P, "            arguments.append(arg)\n", "            if arg or code != 'O':\n                arguments.append(arg)\n", 'SB2')
+V('sb2-default-index', ['C09'], P, "                        arg = [copy.copy(t) for t in mac.defaults[n]]", "                        arg = [copy.copy(t) for t in mac.defaults[0]]", 'SB2')
+V('sb3-only-new', ['C09'], 'yalafi/handlers.py',
+  "    else:\n        parser.the_macros[name] = defs.Macro(parser.parms,\n                                name, args='A' * nargs,\n                                repl=args[4], scanned=True)\n    return []",
+  "    elif name not in parser.the_macros:\n        parser.the_macros[name] = defs.Macro(parser.parms,\n                                name, args='A' * nargs,\n                                repl=args[4], scanned=True)\n    return []", 'SB3')
+V('sb3-codes', ['C09'], 'yalafi/handlers.py', "                                name, args='O' + 'A' * (nargs - 1),", "                                name, args='O' + 'A' * nargs,", 'SB3')
+V('sb3-default-body', ['C09'], 'yalafi/handlers.py', "                                repl=args[4], defaults=[args[3]], scanned=True)", "                                repl=args[4], defaults=[args[4]], scanned=True)", 'SB3')
+V('sb3-neutral-local', ['C09'], 'yalafi/handlers.py',
+  "    else:\n        parser.the_macros[name] = defs.Macro(parser.parms,\n                                name, args='A' * nargs,\n                                repl=args[4], scanned=True)\n    return []",
+  "    else:\n        body = args[4]\n        parser.the_macros[name] = defs.Macro(parser.parms,\n                                name, args='A' * nargs,\n                                repl=body, scanned=True)\n    return []", [])
+V('sb4-leaks-file', ['C09'], 'yalafi/handlers.py', "    parser.extracted = extracted\n    return utils.filter_set_toks(toks, pos, defs.LanguageToken)",
+  "    parser.extracted = extracted\n    return utils.filter_set_toks(toks, pos, None)", 'SB4')
+V('sb5-own-parser', ['C09'], 'yalafi/handlers.py', "        toks = parser.parser_work(latex)\n    except RecursionError:",
+  "        toks = type(parser)(parser.parms, parser.packages).parser_work(latex)\n    except RecursionError:", 'SB5')
+V('sb5-table-reset', ['C09'], P, "        main += self.parser_work(latex)\n", "        self.the_macros = dict((k, v) for k, v in self.the_macros.items() if not v.scanned)\n        main += self.parser_work(latex)\n", 'SB5')
